@@ -79,6 +79,29 @@ func New(h host.Host, options ...Option) (*DHT, error)
   ghost at call(New)#0: $wan = ite($ret1 == nil, $ret0, nil); $news = $news + ite($ret1 == nil, 1, 0)
   ghost at call(New)#1: $news = $news + ite($ret1 == nil, 1, 0)
   ghost at before call(Close): assert($recv == $wan); $wanClosed = true
+  # C15 option layering: the WAN DHT gets the public query / routing-table
+  # filters and the first address filter (literal 0), the LAN DHT the private
+  # ones and the second address filter (literal 1), each exactly once
+  ghostvar $wq dht.Option = nil
+  ghostvar $wr dht.Option = nil
+  ghostvar $wa dht.Option = nil
+  ghostvar $lq dht.Option = nil
+  ghostvar $lr dht.Option = nil
+  ghostvar $la dht.Option = nil
+  ghostvar $layers int = 0
+  ensures [both-layers-installed] imp(result1 == nil, $layers == 2)
+  ghost at before call(QueryFilter)#0: assert($arg0 == dht.PublicQueryFilter)
+  ghost at call(QueryFilter)#0: $wq = $ret0
+  ghost at before call(RoutingTableFilter)#0: assert($arg0 == dht.PublicRoutingTableFilter)
+  ghost at call(RoutingTableFilter)#0: $wr = $ret0
+  ghost at call(AddressFilter)#0: $wa = $ret0
+  ghost at before call(QueryFilter)#1: assert($arg0 == dht.PrivateQueryFilter)
+  ghost at call(QueryFilter)#1: $lq = $ret0
+  ghost at before call(RoutingTableFilter)#1: assert($arg0 == dht.PrivateRoutingTableFilter)
+  ghost at call(RoutingTableFilter)#1: $lr = $ret0
+  ghost at call(AddressFilter)#1: $la = $ret0
+  ghost at before call(WanDHTOption): assert(len($arg0) == 4 && $arg0[0] == $wq && $arg0[1] == $wr && $arg0[3] == $wa); $layers = $layers + 1
+  ghost at before call(LanDHTOption): assert(len($arg0) == 4 && $arg0[1] == $lq && $arg0[2] == $lr && $arg0[3] == $la); $layers = $layers + 1
 
 func (dht *DHT) Close() error
   props C14
@@ -90,4 +113,22 @@ func (dht *DHT) Close() error
   ensures [closes-both] $w && $l
   ghost at before call(Close)#0: assert($recv == dht.WAN); $w = true
   ghost at before call(Close)#1: assert($recv == dht.LAN); $l = true
+
+# C15 address scoping: the WAN DHT keeps exactly the addresses manet classifies
+# as public, the LAN DHT drops exactly the loopback addresses.
+funclit 0 in New(h host.Host, options ...Option) (*DHT, error)
+  props C15
+  ghostvar $n int = 0
+  ensures [wan-keeps-public-only] $n == 1
+  ghost at before call(FilterAddrs): assert($arg0 == addrs); assert(len($arg1) == 1 && $arg1[0] == manet.IsPublicAddr); $n = $n + 1
+
+funclit 1 in New(h host.Host, options ...Option) (*DHT, error)
+  props C15
+  ghostvar $n int = 0
+  ensures [lan-filters-the-given-addresses] $n == 1
+  ghost at before call(FilterAddrs): assert($arg0 == addrs && len($arg1) == 1); $n = $n + 1
+
+funclit 2 in New(h host.Host, options ...Option) (*DHT, error)
+  props C15
+  ensures [lan-drops-loopback-only] result == !manet.IsIPLoopback(a)
 @*/
